@@ -6,7 +6,8 @@
    DRecover to the batches the newest committed record covers (mirrors DiskCorr.x_eff). *)
 From Coq Require Import ZArith List.
 From Verif Require Import Scorch.Model Scorch.ProofsCore Scorch.Disk
-  Scorch.ProofsDisk1 Scorch.ProofsDisk4 Scorch.ProofsDisk5 Scorch.ProofsDisk8 Scorch.ProofsDisk9.
+  Scorch.ProofsDisk1 Scorch.ProofsDisk4 Scorch.ProofsDisk5 Scorch.ProofsDisk8 Scorch.ProofsDisk9
+  Scorch.ProofsDisk10.
 Import ListNotations.
 Local Open Scope Z_scope.
 
@@ -47,6 +48,16 @@ Theorem C03_crash_recovers_prefix : forall evs d,
   forall id, root_lookup (root (d_core d2)) id = replay (firstn (covered d) (eff evs)) id.
 Proof. exact crash_recovers_prefix. Qed.
 Print Assumptions C03_crash_recovers_prefix.
+
+(* ... and so are the internal values: exactly the SetInternal/DeleteInternal calls of that prefix
+   ([ieff evs]: the internal calls of the batches in effect, one list per batch) *)
+Theorem C03_crash_recovers_internals : forall evs d,
+  drun dinit evs = Some d ->
+  forall d1 d2, dstep d DCrash = Some d1 -> dstep d1 DRecover = Some d2 ->
+  forall key, assoc_first key (internal (d_core d2))
+              = spec_internal (concat (firstn (covered d) (ieff evs))) key.
+Proof. exact crash_recovers_internals. Qed.
+Print Assumptions C03_crash_recovers_internals.
 
 (* recovery never fails once something was committed and never falls back past the newest
    committed record *)
